@@ -164,8 +164,16 @@ def digest(obj: Any) -> str:
     return hashlib.sha256(json.dumps(obj, sort_keys=True, default=str).encode()).hexdigest()[:16]
 
 
+def norm_case(case: Any) -> Any:
+    """JSON turns the rank keys into strings; the adapters use ints."""
+    if isinstance(case, dict) and isinstance(case.get("ranks"), dict):
+        case["ranks"] = {int(k): v for k, v in case["ranks"].items()}
+    return case
+
+
 def run_one(mod: Any, drv: Any, case: Dict[str, Any]) -> Dict[str, Any]:
     """Evaluate one case: impl, model, comparison, Lean spec check on impl output, Python oracle."""
+    case = norm_case(case)
     res: Dict[str, Any] = {"status": "ok", "diffs": [], "violations": []}
     obs = mod.observe(case)
     res["obs_digest"] = digest([obs.get("canon"), obs.get("rows"), obs.get("key")])
@@ -245,7 +253,10 @@ def run_cases(prop: str, tier: str, seed: int, ncases: int, nworkers: int, wide:
         if rc != 0 or not os.path.exists(out):
             results.append({"no": -1, "status": "error", "error": f"worker exit {rc}"})
             continue
-        results += json.load(open(out))
+        for r in json.load(open(out)):
+            if "case" in r:
+                norm_case(r["case"])
+            results.append(r)
     import shutil
     shutil.rmtree(d, ignore_errors=True)
     return results
